@@ -354,6 +354,16 @@ def names_terms(tier: str):
         v = V(n)
         out += [v, Add(v, C(1)), NPow(v, 2), Mul(v, v), Mul(v, x), Pow(Add(NPow(v, 2), C(1)), v), Div(v, Add(x, C(3)))]
     out.append(Add(V("x1"), V("x2"), V("x10")))
+    # names of which one is contained in the other (prefix, suffix, infix), in both orders and roles
+    for a, b in (("x", "x1"), ("t", "theta"), ("a", "alpha"), ("n", "point"), ("e", "base"), ("y", "xy"), ("x", "xx"), ("in_", "in"),
+                 ("lambda_", "lambda"), ("x_", "x"), ("_x", "x")):
+        va, vb = V(a), V(b)
+        out += [Add(Mul(NPow(va, 2), vb), Mul(C(3), vb)), Add(Mul(va, vb), Exp(vb)), NPow(vb, 2), Mul(vb, Add(va, C(1))), Div(va, Add(NPow(vb, 2), C(1)))]
+    import keyword
+    for k in ("lambda", "in", "class", "is", "match"):
+        for n in (k + "_", "_" + k):
+            v = V(n)
+            out += [v, Add(NPow(v, 2), Mul(C(3), v)), Mul(v, x)]
     out.append(Mul(V("µ"), V("μ")))           # U+00B5 and U+03BC are different variables
     return out
 
